@@ -53,9 +53,15 @@ CHECKS.append(_check("C09", "gibbs", "exploration",
            "every block visited once per sweep, the target handed to the block equals the pristine twin joint conditioned on the "
            "current values of all other blocks (log-density differences at probe points), the sampler starts from the block's "
            "current value, is advanced exactly the configured number of steps, the stored sweep equals the values after the sweep, "
-           "and a freshly built sampler on the pristine conditional replays the block update bitwise on the same tape.",
-           "Trusted: the block kernels' own correctness (C02/C06/C10), JointDistribution conditioning of the twin (checked "
-           "separately under C01). Invariance of the joint is an argument from these oracles, not a measured law.",
+           "a freshly built sampler on the pristine conditional replays the block update bitwise on the same tape, and for every block "
+           "with a closed-form kernel (conjugate and approximately conjugate Gamma updates, LinearRTO with one or two likelihoods, "
+           "UGLA, Direct) the update is recomputed by a reference kernel written in numpy from the RECIPE of the joint (matrices, "
+           "data, hyper-prior constants, current values of the other blocks) on the same entropy tape. Joints include non-zero prior "
+           "means, Neumann GMRF priors, expansion geometries, correlated noise, a three-level vector hierarchy and the forward "
+           "operator of the shipped deconvolution test problem; histories include refused calls followed by continuation.",
+           "Trusted: correctness of the accept/reject block kernels (C02/C08, checked there and, for stale caches inside the "
+           "orchestrator, by this engine under those ids), JointDistribution conditioning of the twin (C01). Invariance of the joint "
+           "is an argument from these oracles, not a measured law.",
            "deterministic simulation: orchestrator with real/fake peers, reference model of current block values, tape rewind + stand-alone replay oracle",
            "DESIGN.md 3.4"))
 
@@ -82,7 +88,11 @@ CHECKS.append(_check("C11", "objhist", "exploration",
            "to_likelihood / stacked view / model application / sampler runs on copies / 200-2000 re-conditionings, with hyper-"
            "parameter callables that raise or return NaN at the k-th call. After every operation the behavioural signature of every "
            "live object (names, conditioning variables, dim, logd, gradient, a draw under a private generator, depth-1 conditioning) "
-           "must equal that of its twin rebuilt from the recipe and never touched by the history.",
+           "must equal that of its twin rebuilt from the recipe and never touched by the history; the twin's probes are evaluated in "
+           "reverse order (observers must commute). Also: the BayesianProblem interface (sample_prior / sample_posterior / MAP / ML) on "
+           "problems built from a posterior's factors, sampler runs repeated on one object, handed-out samples edited by the caller, a "
+           "user prior handed to shipped test problems; graphs with KL/step/mapped/2-D geometries, PDE models and user-defined "
+           "densities that hand out persistent arrays.",
            "Trusted: the constructors used to rebuild the twin. A behavioural signature is finite: influence that none of its entries "
            "observes is not seen.",
            "deterministic simulation: seeded operation/fault histories over aliased objects, twin-object behavioural-signature oracle",
@@ -93,9 +103,10 @@ CHECKS.append(_check("C01", "objhist", "exploration",
            "MultipleLikelihoodPosterior, fully evaluated) must evaluate at the remaining variables to the pristine twin joint's "
            "log-density at the complete assignment; the stacked view must agree; evaluations with missing, unknown or doubly "
            "specified variables must raise (accepted-invalid); conditioning on a valid free variable must yield an object "
-           "(refused-valid). Weakest fit of the claimed set: its histories carry no clock or randomness of their own - the simulator "
+           "(refused-valid); every older view is re-evaluated after every later operation, also views fixed at alternative values; for "
+           "19 of the 27 model graphs the reference value is additionally written out in closed form in numpy. Weakest fit of the claimed set: its histories carry no clock or randomness of their own - the simulator "
            "contributes seeded sequence generation, the twin and the fault dimension.",
-           "Trusted: JointDistribution.logd of the pristine twin as reference value (sum of its densities' log-densities).",
+           "Trusted: JointDistribution.logd of the pristine twin as reference value for the graphs without a closed form.",
            "deterministic simulation: seeded conditioning histories with callable faults, twin-joint reference value",
            "DESIGN.md 3.5"))
 
